@@ -764,7 +764,7 @@ func init() {
 		Assumptions: []string{"pool quotes that involved limit orders (fills reported in tx.commission_details, or a differing quote on a pool that carries orders) are not judged for their amount - the order book is judged by C14; the same holds for the table-coin conversion when the table coin's pool carries orders",
 			"the payer's debit is compared exactly only where the transaction's own spending in the gas coin is known from its data (not for trades/liquidity that move the gas coin by a node-computed amount; C15/C13 judge those)",
 			"bancor amounts are compared within the C12 closeness tolerance"},
-		Quick: 56, Thorough: 1400, MinEval: 6000, MinDistinct: 120,
+		Quick: 56, Thorough: 2200, MinEval: 6000, MinDistinct: 120,
 		Run: runC27,
 	})
 }
@@ -796,10 +796,10 @@ func reEnvelope(s *Sim, g *TxGen, r *rand.Rand, bz []byte, meta TxMeta) ([]byte,
 
 func runC27(ctx *WorkCtx, idx int) {
 	r := Rng(ctx.Seed, "C27", idx)
-	blocks := 34
+	blocks := 30
 	sc := StdScenario(idx, r, blocks)
 	if sc.Family == "crowded" || sc.Family == "filler" {
-		blocks = 24
+		blocks = 22
 	}
 	s, d := sc.Build("C27", ctx.Seed, idx, r, c27Mons(ctx.Res)...)
 	defer s.Finish()
@@ -867,7 +867,7 @@ func runC27(ctx *WorkCtx, idx int) {
 		mk(6, customCoin(2), 3)
 	case 3:
 		mk(5, customCoin(1), 4)
-		mk(18, 0, 5)
+		mk(14, 0, 5)
 	}
 	lazyNonce := func(k *Key) uint64 { return s.N.App.CurrentState().Accounts().GetNonce(k.Addr) + 1 }
 	for b := 0; b < blocks && !s.Dead && !s.Stopped; b++ {
@@ -910,13 +910,13 @@ func runC27(ctx *WorkCtx, idx int) {
 				}
 			}
 		}
-		if b == 2 || b == 20 {
+		if b == 2 || b == 16 {
 			// harmless governance transactions of a single validator, far in the future: their prices get judged
 			if len(s.Post.Candidates) > 0 {
 				c := s.Post.Candidates[0]
 				if sg, ok := d.G.signerFor(c.OwnerAddress); ok && sg.K != nil {
 					gas := types.CoinID(0)
-					if b == 20 {
+					if b == 16 {
 						gas = CoinA
 					}
 					ownTx(sg.K, tx.TypeSetHaltBlock, tx.SetHaltBlockData{PubKey: c.PubKey, Height: uint64(req.Height) + 5000000}, gas, "far-halt-vote")
